@@ -3,7 +3,7 @@
    handles) and compares with what the driver observed on libvata after every step.
    input line:  c18 <u|s> <NV> <steps> ||| <dLeaf>:<dInt>:<h>=<values>,... per step   END <dLeaf>:<dInt>
    output line: OK | FAIL <gates> ; then flags
-   gates:  size      both unique tables have the sizes of the model after every step (C18_step_inv, C18_baseline)
+   gates:  size      after every step both unique tables hold at least the nodes of the model (= those reachable from live objects); exact equality is drift
            value     every live object has, on every total assignment, the value of its (unchanged) model diagram (C18_frame)
            handles   the set of live objects differs (driver / model disagree about the history)
            baseline  after destroying everything the tables are not back to their sizes at the start of the case
@@ -51,6 +51,7 @@ let () = each_line (fun l ->
   | _ ->
     let fails = ref [] in
     let fail g = if not (List.mem g !fails) then fails := g :: !fails in
+    let drift = ref false in
     let asgns = List.init (pow 2 nv) (fun k -> nth_asgn k nv 2) in
     let released = ref 0 and maxnodes = ref 0 and shared = ref false and maxlive = ref 0 in
     let st = ref (Some empty_store) in
@@ -70,7 +71,11 @@ let () = each_line (fun l ->
            let hs = List.sort compare (List.map (fun (h, hd) -> (int_of_nat h, hd)) (handles s')) in
            (match String.split_on_char ':' w with
             | [dl; di; rest] ->
-              if int_of_string dl <> int_of_nat (leaf_size s') || int_of_string di <> int_of_nat (int_size s') then fail "size";
+              (* the property: no node is released while something refers to it, and the store is back to baseline at the end. During a
+                 history the store must therefore hold AT LEAST the nodes reachable from the live objects (the model's tables, which
+                 release eagerly); holding more for a while (e.g. deferred release) is the implementation's business: reported as drift *)
+              if int_of_string dl < int_of_nat (leaf_size s') || int_of_string di < int_of_nat (int_size s') then fail "size"
+              else if int_of_string dl <> int_of_nat (leaf_size s') || int_of_string di <> int_of_nat (int_size s') then drift := true;
               let items = if rest = "-" then [] else String.split_on_char ',' rest in
               if List.length items <> List.length hs then fail "handles" else
               List.iter2 (fun item (h, hd) ->
@@ -87,5 +92,6 @@ let () = each_line (fun l ->
        expect t "END";
        if word t <> "0:0" then fail "baseline");
     (if !fails = [] then "OK" else "FAIL " ^ String.concat "," (List.rev !fails))
+    ^ (if !drift then " DRIFT size_exact" else "")
     ^ Printf.sprintf " steps=%d destroys=%d released=%d maxnodes=%d maxlive=%d selfassign=%d%s" (List.length ops) !destroys !released !maxnodes !maxlive !selfassign
         (if !shared then " shared" else ""))
